@@ -180,6 +180,12 @@ def prove_path(entry, path, opts):
             if v[0] == 'sat':
                 m = smt.parse_model(v[1])
                 res['cex_models'][lab[4:]] = {int(k[1:]): val for k, val in m.items() if k[1:].isdigit() and nodes[int(k[1:])].op == 'var'}
+    if res['candidates'] and not res.get('cex_models') and not opts.get('no_cex') and fz == 'sat':
+        # any point of a feasible path is a candidate when the canonical forms differ: take the feasibility model
+        rf = smt.run_checks(pre, [('feasible', pc)], per_check_ms=opts.get('per_check_ms', 20000), jobs=1, models=True)
+        if rf['feasible'][0] == 'sat':
+            m = smt.parse_model(rf['feasible'][1])
+            res.setdefault('cex_models', {})['__feasible__'] = {int(k[1:]): val for k, val in m.items() if k[1:].isdigit() and int(k[1:]) in nodes and nodes[int(k[1:])].op == 'var'}
     res['time'] = time.time() - t0
     res['_C'] = C
     return res
@@ -242,6 +248,7 @@ def complete_model(entry, path, m):
     outs = [dict()]
     inq = set()
     for kind, ids in path.hyps:
+        if kind not in ('unitq', 'unitc'): continue
         lead = ids[3] if kind == 'unitq' else ids[0]
         rest = [j for j in ids if j != lead]
         inq.update(ids)
@@ -275,7 +282,16 @@ def numeric_search(entry, path, names, nsamples=40, seed=0, tol=1e-20, extra=(),
     ids = [x for nm in names for x in cl[nm][2:]] + [x for d in path.decisions for x in (d[0], d[2])] + [x for d in path.assumes for x in (d[0], d[2])]
     def tomp(v):
         return mp.mpf(v.numerator) / mp.mpf(v.denominator) if isinstance(v, Fraction) else mp.mpf(v)
-    for asg in list(extra) + sample_assignments(entry, path, nsamples, seed):
+    # solver models may sit exactly on a boundary of the path condition and are printed as truncated decimals:
+    # also try tiny relative perturbations of them
+    import random as _rnd
+    rr = _rnd.Random(seed)
+    jitter = []
+    for asg in list(extra)[:4]:
+        for sz in (1e-26, 1e-20, 1e-17, 1e-15):
+            for _ in range(8):
+                jitter.append({k: (tomp(v) * (1 + mp.mpf(sz) * rr.uniform(-1, 1))) for k, v in asg.items()})
+    for asg in list(extra) + jitter + sample_assignments(entry, path, nsamples, seed):
         try:
             val = dagm.numeval(nodes, ids, {k: tomp(v) for k, v in asg.items()}, mp)
         except Exception:
@@ -330,7 +346,7 @@ def solver_confirm(entry, path, name, asg, timeout_ms=20000):
         else:
             L.append("(declare-fun n%d () Real)" % i); L.append(box(i, val[i]))
     for kind, ids in path.hyps:
-        if all(j in need for j in ids):
+        if kind in ('unitq', 'unitc') and all(j in need for j in ids):
             L.append("(assert (= (+ %s) 1))" % ' '.join("(* n%d n%d)" % (j, j) for j in ids))
     neg = {'EQ': "(not (= n%d n%d))", 'LE': "(not (<= n%d n%d))", 'LT': "(not (< n%d n%d))"}[k] % (l, r)
     rr = smt.run_checks(L, [('confirm', [neg])], per_check_ms=timeout_ms, jobs=1)
